@@ -561,14 +561,15 @@ def nest(d, inner, call="%get(zz "):
     return "[" + call * d + inner + ")" * d + "]"
 
 
-DEPTHS = list(range(1, 71)) + [126, 127, 128, 129, 130]
+DEPTHS = {"quick": [1, 2, 3, 4, 7, 8, 9, 15, 16, 17, 31, 32, 33, 62, 63, 64, 65, 66, 70, 127, 128, 129],
+          "thorough": list(range(1, 71)) + [126, 127, 128, 129, 130]}
 
 
 def depth_family(tier):
     """Round 3, class 1 for nesting: %calls nested 1..70 (and around 128) deep, innermost first (the spec's frame stack has
     no depth bound, TLC evaluates the expectation)."""
     out = []
-    for d in DEPTHS:
+    for d in DEPTHS[tier]:
         out.append([([], nest(d, "w%d" % d))])                                        # default chain: [w<d>]
         if d <= 70:
             out.append([([], "%put(ka ka)"), ([], nest(d, "ka", "%get("))])           # store chain: [ka]
@@ -588,6 +589,8 @@ def purity_family(tier):
                 ["%get(a", "%get(%get(a)", "%version("], ["%get()", "%put(a)", "%get(a b c)", "%x", "%"],
                 ["${A", "$(", "x\\"], ["%get(a))(", "'%get(a)'"], ["~~~", "~~~" + "p" * 5000]]
     out = []
+    if tier == "quick":
+        probes, preludes = probes[:4], [preludes[k] for k in (0, 3, 4, 5, 6, 8)]
     for p in probes:
         for q in preludes:
             out.append([(env, p)] + [(big if x.startswith("~~~") else env, x) for x in q] + [(env, p)])
